@@ -235,6 +235,9 @@ add(Contract(
     known={'no OtherException* escapes': dict(id='K12a', case="not silent")},
     ghost_init={'g_parsed': 'False', 'g_pkt': 'None'}, ghost_kinds={'g_parsed': 'bool', 'g_pkt': 'dyn'},
     call_effects={'Packet.unpack_impl': {'g_parsed': 'result >= 0', 'g_pkt': 'arg_self'}},
+    # the whole input and the caller's offset are handed on as they are (positions in error reports and the offsets
+    # callbacks see are positions in the caller's buffer)
+    call_asserts={'Packet.unpack_impl': ["arg_raw == bytesval(raw) and arg_offset == offset"]},
     modifies=[], allocates=True, returns='dyn'))
 
 add(Contract(
